@@ -140,6 +140,28 @@ def classify(case, r):
         return 'agree', ''
     return 'disagree', 'impl=%s model=%s' % (impl[:300], model[:300])
 
+_UNORDERED = re.compile(r'\*\*|(?:^|[.(\[{,;:?|=<>&+\-/%!~^])\s*\*|\$keys|\$each|\$spread|\$sift|\$merge|\$lookup|\$shuffle|\$random|\$now|\$millis|\$distinct')
+_SELF_UPDATE = re.compile(r'\|[^|]*\|[^|]*:\s*\$\s*[,}]')
+
+def _has_null(d):
+    if isinstance(d, dict):
+        return any(v is None or _has_null(v) for v in d.values())
+    if isinstance(d, list):
+        return any(v is None or _has_null(v) for v in d)
+    return False
+
+def outside_model(case, r):
+    """disagreements that are expected because the case lies outside what the model covers or what is
+    deterministic: JSON null inside the input document, member order of objects, which of several failing
+    sub-expressions reports, the known cyclic transform result"""
+    if case.get('input') is None or _has_null(case.get('input')) or any(x is None or _has_null(x) for x in (case.get('inputs') or [])):
+        return True
+    e = case.get('expr') or ''
+    if _UNORDERED.search(e) or _SELF_UPDATE.search(e):
+        return True
+    i, m = r.get('impl', ''), r.get('model') or ''
+    return i.startswith('E') and m.startswith('E')
+
 def direct_failures(r):
     return {k: v for k, v in (r.get('direct') or {}).items() if v != 'ok'}
 
@@ -286,7 +308,7 @@ class Check:
             self.samples.append({'expr': case.get('expr'), 'input': case.get('input'),
                                  'impl': (r or {}).get('impl', '')[:160], 'model': ((r or {}).get('model') or '')[:160]})
 
-    def std_analyze(self, cases, results, crashed, owner_direct=(), value_compare=True, panics_are=None):
+    def std_analyze(self, cases, results, crashed, owner_direct=(), value_compare=True, panics_are=None, disagree_is_input=True, quiet_tie=False):
         """Common analysis: correspondence on projected outcomes + the direct predicates this
         property owns. panics_are: property blamed for implementation panics/hangs (default: own)."""
         byid = {c['id']: c for c in cases}
@@ -309,7 +331,26 @@ class Check:
                 else:
                     self.stats['panic_blamed_elsewhere'] += 1
             elif st == 'disagree' and value_compare and 'novalue' not in case.get('tags', []):
-                self.failing_case(case, r, 'disagree: ' + detail)
+                if disagree_is_input:
+                    self.failing_case(case, r, 'disagree: ' + detail)
+                else:
+                    # the property itself (e.g. totality) holds on this input; what broke is the tie between the
+                    # model the theorems are about and the code: reported once, without a failing input
+                    self.stats['correspondence_breaks'] += 1
+                    if not getattr(self, '_corr_reported', False):
+                        self._corr_reported = True
+                        self.report_violation({'kind': 'correspondence-broken', 'broken': 'model and implementation disagree (first disagreeing case below); '
+                                               'the theorems in Properties/%s.v are about the model and no longer transfer to the code' % self.pid,
+                                               'what': detail, 'case': case, 'result': r}, no_input=True)
+            elif st == 'disagree' and not value_compare and quiet_tie and not outside_model(case, r):
+                # this check does not own values, but a disagreement inside the modelled, deterministic domain
+                # means the model no longer describes the code
+                self.stats['correspondence_breaks'] += 1
+                if not getattr(self, '_corr_reported', False):
+                    self._corr_reported = True
+                    self.report_violation({'kind': 'correspondence-broken', 'broken': 'model and implementation disagree on a case inside the modelled domain (first one below); '
+                                           'the theorems in Properties/%s.v are about the model and no longer transfer to the code' % self.pid,
+                                           'what': detail, 'case': case, 'result': r}, no_input=True)
             elif st == 'inconclusive':
                 self.inconclusive[detail[:60]] += 1
             # a law evaluated inside JSONata must be true (spec-level predicate on the implementation)
@@ -391,7 +432,7 @@ TRUSTED_BASE = [
 
 
 def simple_run(pid, tier, seed, replay, rule, cases_fn, owner_direct=(), unordered_tag='unordered', chunk=20000,
-               proof_props=None, panics_are=None, value_compare=True, timeout_ms=5000, post=None, extra_cov=None):
+               proof_props=None, panics_are=None, value_compare=True, timeout_ms=5000, post=None, extra_cov=None, disagree_is_input=True, quiet_tie=False):
     """The common shape of a check: build, proofs, cases through both sides, analysis, evidence."""
     from . import wirepy
     ck = Check(pid, tier, seed, '', rule)
@@ -409,7 +450,7 @@ def simple_run(pid, tier, seed, replay, rule, cases_fn, owner_direct=(), unorder
                 if a is not None and b is not None and wirepy.deep_multiset(a) == wirepy.deep_multiset(b):
                     r['model'] = r['impl']
                     ck.stats['agree_as_multiset'] += 1
-        ck.std_analyze(part, res, crashed, owner_direct=owner_direct, panics_are=panics_are, value_compare=value_compare)
+        ck.std_analyze(part, res, crashed, owner_direct=owner_direct, panics_are=panics_are, value_compare=value_compare, disagree_is_input=disagree_is_input, quiet_tie=quiet_tie)
         if i == 0 and not replay:
             vm_crosscheck(ck, res, 12 if tier == 'quick' else 150)
         if post:
